@@ -1736,7 +1736,8 @@ def run(ck):
                "(geometric and control; half of them histories through the by-state API — addEdge(v1,v2), removeVertex(v), removeEdge(v1,v2), "
                "markStartState, tagState, vertexIndex — with vertices added after removals, clear() and re-use, decoupleFromPlanner() in "
                "mid-history, the caller's state objects changed while the graph points to them, extractStateStorage()) "
-               "each ending in store -> load -> corruption sweep; a script is non-trivial if it performs a "
+               "each ending in store -> load -> corruption sweep; space-evolution scripts (setup, use, addDimension/addSubspace/setName/lock, "
+               "setup again, the same battery on the evolved space); a script is non-trivial if it performs a "
                "partial copy or a storage round trip with its truncation sweep; distinct by script text")
     ck.trusted += ["harness/copy.cpp fills and dumps states with its own typed walk over the state tree; it identifies a "
                    "getValueAddressAtIndex pointer by comparing it with the addresses of that walk",
@@ -1848,7 +1849,10 @@ MANIFEST = {
             "compiled into the harness under ASan/UBSan/vptr/LSan. The open finding F31 and the repaired F29/F32 are kept as kernel-checked witnesses about the old code; the model "
             "follows the repaired code (wrapper = opaque leaf, F32; sorted goal list, F29) and keeps the pre-repair variant only as the "
             "detection path of a probe that turns a reverted repair into a VIOLATION.",
-    "covers": "modelled+proved (round 10): PlannerData's state->index map (vertexIndex/addVertex/addStartVertex/addGoalVertex/addEdge(v1,v2)/"
+    "covers": "modelled+proved (round 10b): a space object with a history (addDimension/addSubspace at any depth/setName/lock/weights, repeated setup): after "
+              "setup the value locations, substate table and reals round trip are those of the current structure (locations_history_independent, "
+              "reals_roundtrip_after_history), driven by the `evolve` op with the full battery before and after; "
+              "modelled+proved (round 10): PlannerData's state->index map (vertexIndex/addVertex/addStartVertex/addGoalVertex/addEdge(v1,v2)/"
               "removeVertex(v)/removeEdge(v1,v2)/markStartState/markGoalState/tagState/clear/decoupleFromPlanner: KBuilt histories round-trip, the map "
               "stays exact, a decoupled or loaded graph is a copy), GraphStateStorage store/load with its metadata block (every record prefix is "
               "reported and leaves one metadata entry per state; F108 witness about the old code), extractStateStorage (isomorphic for every "
@@ -1856,7 +1860,7 @@ MANIFEST = {
               "modelled+proved: serialize/deserialize/serLen/copyState/cloneState, addrAtIndex, valueLocations(+repaired variant), reals round "
               "trip, csd/csdNames state and result code, commonSubspaces, signature shape, storeStates/loadStates, storeGraph/loadGraph, "
               "PlannerData add/mark/remove invariants, binary search; compared only: equalStates of copies, boost byte framing (enumerated), "
-              "substate map as printed, control-space images, the decoupled-control bookkeeping of control::PlannerData (who frees which clone: ASan/LSan only), duplicate-name spaces (model vs code only); sampled: the scripts (282 quick / 1522 thorough) and the truncation offsets of "
+              "substate map as printed, control-space images, the decoupled-control bookkeeping of control::PlannerData (who frees which clone: ASan/LSan only), duplicate-name spaces (model vs code only); sampled: the scripts (325 quick / 1825 thorough) and the truncation offsets of "
               "archives larger than the exhaustive cap",
     "note": "Trusted: Lean kernel, the three standard axioms, the hand-written model outside the scripts the correspondence explored, the "
             "harness (own typed state walk; global operator new/delete replaced by malloc/free wrappers so that an absurd allocation throws "
